@@ -39,6 +39,7 @@ class Job:
     pre_hook_arg: object = None
     out_path: str | None = None  # override report path template (e.g. "{scratch}/nodir/x.codetf")
     snapshot_meta: bool = False  # record (mode, mtime_ns) per file as well
+    proj_rel: str = "proj"  # where the target directory lives under the scratch root (e.g. "tests/venv/proj")
     debug_logs: bool = False  # capture DEBUG records too (without --verbose, so semgrep stays piped)
 
 
@@ -265,7 +266,7 @@ def run_inproc(job: Job) -> Observation:
     import codemodder.codemodder as cm
 
     root = core.scratch_root() / f"r{next(_counter)}"
-    proj, resd, outside, tmp = root / "proj", root / "res", root / "outside", root / "tmp"
+    proj, resd, outside, tmp = root / job.proj_rel, root / "res", (root / job.proj_rel).parent / "outside", root / "tmp"
     for d in (proj, resd, tmp):
         d.mkdir(parents=True, exist_ok=True)
     obs = Observation([], {}, [], [], [], [], [])
@@ -368,7 +369,7 @@ def run_inproc(job: Job) -> Observation:
 
 def run_cli(job: Job, hashseed: str = "0", timeout: int = 600) -> Observation:
     root = core.scratch_root() / f"c{next(_counter)}"
-    proj, resd, outside, tmp = root / "proj", root / "res", root / "outside", root / "tmp"
+    proj, resd, outside, tmp = root / job.proj_rel, root / "res", (root / job.proj_rel).parent / "outside", root / "tmp"
     for d in (proj, resd, tmp):
         d.mkdir(parents=True, exist_ok=True)
     obs = Observation([], {}, [], [], [], [], [])
